@@ -1624,11 +1624,14 @@ VH_TARGET(sptr_ops, 3,
       wn.s[i] = nostd::shared_ptr<Node<NPol>>(new Node<NPol>(next_id));
       ws.s[i] = std::shared_ptr<Node<SPol>>(new Node<SPol>(next_id));
     }
+    wn.d[0] = nostd::shared_ptr<DNode<NPol>>(new DNode<NPol>(next_id));
+    ws.d[0] = std::shared_ptr<DNode<SPol>>(new DNode<SPol>(next_id));
+    ++next_id;
     unsigned nops = 1 + rd.below(24);
     for (unsigned step = 0; step < nops && (step == 0 || !rd.exhausted()); ++step)
     {
       POp op;
-      op.kind = static_cast<int>(rd.weighted({12, 6, 4, 14, 12, 6, 6, 4, 8, 4, 5, 5, 8, 5, 4, 2, 3}));
+      op.kind = static_cast<int>(rd.weighted({12, 6, 3, 14, 12, 6, 6, 4, 8, 3, 5, 5, 10, 6, 5, 2, 3}));
       op.i    = static_cast<int>(rd.below(4));
       op.j    = static_cast<int>(rd.below(4));
       op.k    = static_cast<int>(rd.below(2));
@@ -1644,8 +1647,17 @@ VH_TARGET(sptr_ops, 3,
         op.k ^= 1;
       if ((op.kind == S_MOVE_ASSIGN || op.kind == S_COPY_ASSIGN || op.kind == S_SWAP) && rd.chance(15))
         op.j = op.i;  // self
-      if (op.kind == S_LINK && ws.s[op.i] && ws.s[op.j] && ws.s[op.j]->id < ws.s[op.i]->id)
-        std::swap(op.i, op.j);
+      if (op.kind == S_LINK)
+      {
+        // look for a pair of slots holding two different objects
+        for (int t = 0; t < 4 && (!ws.s[op.j] || ws.s[op.j].get() == ws.s[op.i].get()); ++t)
+          op.j = (op.j + 1) % 4;
+        if (ws.s[op.i] && ws.s[op.j] && ws.s[op.j]->id < ws.s[op.i]->id)
+          std::swap(op.i, op.j);
+      }
+      if (op.kind == S_ADVANCE_COPY || op.kind == S_ADVANCE_MOVE)
+        for (int t = 0; t < 4 && !(ws.s[op.i] && ws.s[op.i]->next) && (t > 0 || rd.chance(75)); ++t)
+          op.i = (op.i + 1) % 4;
       // open finding F17 (assignment releases the old object before it takes the new one): when it
       // is excluded, self-assignment and assignment from the own pointee's member are not generated
       if (vh::excluded("F17"))
@@ -1731,4 +1743,959 @@ VH_TARGET(sptr_ops, 3,
            "nostd side at the end: " << g_reg[0].show() << " (std side: " << g_reg[1].show() << ")");
   VH_CHECK(c, g_reg[1].live.empty() && g_reg[1].constructed == g_reg[1].destroyed,
            "std side at the end (harness error): " << g_reg[1].show());
+}
+
+// ================================================================================================
+// function_ref vs direct invocation of a twin callable
+namespace
+{
+long fn_triple(int x)
+{
+  return 3L * x + 1;
+}
+long fn_neg(int x)
+{
+  return -static_cast<long>(x);
+}
+struct Acc
+{
+  long acc;
+  long operator()(int x)
+  {
+    acc = acc * 31 + x;
+    return acc;
+  }
+};
+struct CAcc
+{
+  long k;
+  long operator()(int x) const { return k ^ x; }
+};
+using FR = nostd::function_ref<long(int)>;
+
+long call_by_value(FR f, int x)  // how the API takes callbacks
+{
+  return f(x);
+}
+long call_copy_of(const FR &f, int x)
+{
+  FR g(f);
+  FR h(std::move(g));
+  return h(x);
+}
+// the shape of the API's ForEachKeyValue: stops when the callback returns false
+size_t for_each_kv(const std::vector<std::pair<std::string, std::string>> &kv,
+                   nostd::function_ref<bool(nostd::string_view, nostd::string_view)> cb)
+{
+  size_t calls = 0;
+  for (auto &e : kv)
+  {
+    ++calls;
+    if (!cb(e.first, e.second))
+      break;
+  }
+  return calls;
+}
+}  // namespace
+
+VH_TARGET(fref_ops, 2,
+          "a program is non-trivial when a call goes through a copy of a reference, or reaches a "
+          "stateful callable that was already called before (state carried between calls); distinct = "
+          "distinct (seeds, operation sequence) text")
+{
+  vh::Reader &rd = c.rd;
+  long seed_a = rd.range(-5, 5), seed_l = rd.range(-5, 5), kk = rd.range(0, 255);
+  Acc fa{seed_a}, fa_twin{seed_a};
+  CAcc ca{kk};  // (a const-qualified callable object cannot be bound: BindTo casts its address to void*)
+  auto lam      = [acc = seed_l](int x) mutable -> int { acc = acc * 7 + x; return static_cast<int>(acc % 100000); };
+  auto lam_twin = lam;
+  long ext = 0, ext_twin = 0;
+  auto rlam      = [&ext](int x) { ext += x; return ext * 2; };
+  auto rlam_twin = [&ext_twin](int x) { ext_twin += x; return ext_twin * 2; };
+  long (*fp)(int)     = rd.coin() ? fn_triple : fn_neg;
+  long (*nullfp)(int) = nullptr;
+  c.note("seeds " + std::to_string(seed_a) + "," + std::to_string(seed_l) + "," + std::to_string(kk) + "\n");
+
+  enum
+  {
+    T_FN,
+    T_FPTR,
+    T_FUNCTOR,
+    T_CONST_FUNCTOR,
+    T_LAMBDA,
+    T_REF_LAMBDA,
+    T_N
+  };
+  static const char *const tn[] = {"function", "fptr", "functor", "const-functor", "mutable-lambda", "ref-lambda"};
+  int calls[T_N] = {0, 0, 0, 0, 0, 0};
+  auto direct    = [&](int t, int x) -> long {
+    switch (t)
+    {
+      case T_FN:
+        return fn_triple(x);
+      case T_FPTR:
+        return fp(x);
+      case T_FUNCTOR:
+        return fa_twin(x);
+      case T_CONST_FUNCTOR:
+        return ca(x);
+      case T_LAMBDA:
+        return lam_twin(x);
+      default:
+        return rlam_twin(x);
+    }
+  };
+  auto bind = [&](int t) -> FR {
+    switch (t)
+    {
+      case T_FN:
+        return FR(fn_triple);
+      case T_FPTR:
+        return FR(fp);
+      case T_FUNCTOR:
+        return FR(fa);
+      case T_CONST_FUNCTOR:
+        return FR(ca);
+      case T_LAMBDA:
+        return FR(lam);
+      default:
+        return FR(rlam);
+    }
+  };
+  struct Ref
+  {
+    FR f;
+    int target;
+    bool is_copy;
+  };
+  std::vector<Ref> refs;
+  refs.reserve(64);
+  for (int t = 0; t < T_N; ++t)
+    refs.push_back(Ref{bind(t), t, false});
+
+  VH_CHECK(c, !static_cast<bool>(FR(nullptr)), "function_ref(nullptr) converts to true");
+  VH_CHECK(c, !static_cast<bool>(FR(nullfp)), "function_ref(null function pointer) converts to true");
+
+  unsigned nops = 1 + rd.below(20);
+  for (unsigned op = 0; op < nops && (op == 0 || !rd.exhausted()) && refs.size() < 60; ++op)
+  {
+    std::ostringstream d;
+    size_t r = rd.below(static_cast<uint32_t>(refs.size()));
+    switch (rd.weighted({10, 2, 5, 4, 2, 2}))
+    {
+      case 0:
+      {  // call through a stored reference
+        int x      = rd.range(-50, 50);
+        int t      = refs[r].target;
+        long got   = refs[r].f(x);
+        long want  = direct(t, x);
+        d << "call ref" << r << "(" << tn[t] << (refs[r].is_copy ? ",copy" : "") << ")(" << x << ")";
+        c.tag(std::string("call-") + tn[t] + (refs[r].is_copy ? "-via-copy" : ""));
+        if (refs[r].is_copy || ((t == T_FUNCTOR || t == T_LAMBDA || t == T_REF_LAMBDA) && calls[t] > 0))
+          c.nontrivial = true;
+        ++calls[t];
+        VH_CHECK(c, got == want, d.str() << " returned " << got << ", direct invocation " << want);
+        VH_CHECK(c, static_cast<bool>(refs[r].f), "a bound function_ref converts to false");
+        break;
+      }
+      case 1:
+      {
+        int t = static_cast<int>(rd.below(T_N));
+        refs.push_back(Ref{bind(t), t, false});
+        d << "bind " << tn[t];
+        break;
+      }
+      case 2:
+      {
+        refs.push_back(Ref{FR(refs[r].f), refs[r].target, true});
+        d << "copy ref" << r;
+        break;
+      }
+      case 3:
+      {  // by-value parameter / copy + move construction inside the callee
+        int x     = rd.range(-50, 50);
+        int t     = refs[r].target;
+        bool deep = rd.coin();
+        long got  = deep ? call_copy_of(refs[r].f, x) : call_by_value(refs[r].f, x);
+        long want = direct(t, x);
+        d << "pass ref" << r << "(" << tn[t] << ")(" << x << ")" << (deep ? " copy+move" : " by value");
+        c.tag(std::string("pass-") + tn[t]);
+        c.nontrivial = true;
+        ++calls[t];
+        VH_CHECK(c, got == want, d.str() << " returned " << got << ", direct invocation " << want);
+        break;
+      }
+      case 4:
+      {  // bound to a temporary for the duration of one call
+        int x = rd.range(-50, 50), m = rd.range(1, 9);
+        long got = call_by_value([m](int v) { return static_cast<long>(v) * m; }, x);
+        d << "temporary lambda *" << m << " (" << x << ")";
+        c.tag("call-temporary-lambda");
+        VH_CHECK(c, got == static_cast<long>(x) * m, d.str() << " returned " << got);
+        break;
+      }
+      default:
+      {  // other signatures: reference, move-only and view arguments, early stop
+        int a = rd.range(0, 20), inc = rd.range(1, 5);
+        // (function_ref does not own: the callables are named objects that outlive the references)
+        auto bump_fn = [inc](int &v) { v += inc; };
+        nostd::function_ref<void(int &)> bump(bump_fn);
+        int v = a;
+        bump(v);
+        VH_CHECK(c, v == a + inc, "function_ref<void(int&)>: argument not passed by reference (" << v << ")");
+        auto take_fn = [](std::unique_ptr<int> p) { return p ? *p + 1 : -1; };
+        nostd::function_ref<int(std::unique_ptr<int>)> take(take_fn);
+        int got = take(std::unique_ptr<int>(new int(a)));
+        VH_CHECK(c, got == a + 1, "function_ref<int(unique_ptr)>: returned " << got);
+        auto joiner = [](const std::string &x, std::string y) { return x + "/" + y; };
+        nostd::function_ref<std::string(const std::string &, std::string)> join(joiner);
+        std::string js = join("k" + std::to_string(a), std::string(static_cast<size_t>(inc), 'v'));
+        VH_CHECK(c, js == joiner("k" + std::to_string(a), std::string(static_cast<size_t>(inc), 'v')),
+                 "function_ref<string(const string&,string)>: returned '" << js << "'");
+        std::vector<std::pair<std::string, std::string>> kv;
+        for (int q = 0; q < 4; ++q)
+          kv.emplace_back("k" + std::to_string(q), std::string(1, static_cast<char>('a' + q)) + std::string(1, '\0') + "z");
+        size_t limit = 1 + rd.below(5), count = 0;
+        std::string seen;
+        size_t n_calls = for_each_kv(kv, [&](nostd::string_view k, nostd::string_view val) {
+          seen += std::string(k.data(), k.size()) + "=" + std::string(val.data(), val.size()) + ";";
+          return ++count < limit;
+        });
+        std::string want;
+        size_t want_calls = limit < 4 ? limit : 4;
+        for (size_t q = 0; q < want_calls; ++q)
+          want += kv[q].first + "=" + kv[q].second + ";";
+        VH_CHECK(c, n_calls == want_calls && seen == want,
+                 "function_ref<bool(string_view,string_view)>: " << n_calls << " calls saw '" << vh::show(seen)
+                                                                  << "', expected " << want_calls << " calls '"
+                                                                  << vh::show(want) << "'");
+        d << "signatures(a=" << a << ",inc=" << inc << ")";
+        c.tag("other-signatures");
+        break;
+      }
+    }
+    c.note(d.str() + "\n");
+    // the referenced callables hold exactly the state of their directly invoked twins
+    VH_CHECK(c, fa.acc == fa_twin.acc, "functor state after calls through function_ref " << fa.acc << ", direct "
+                                                                                       << fa_twin.acc);
+    VH_CHECK(c, ext == ext_twin, "captured-by-reference state after calls through function_ref " << ext << ", direct "
+                                                                                               << ext_twin);
+  }
+  // the mutable lambdas: same next value on both (the reference calls the original object, not a copy)
+  VH_CHECK(c, lam(1) == lam_twin(1), "mutable lambda state differs from its directly invoked twin");
+}
+
+// ================================================================================================
+// variant (absl-internal copy) vs std::variant
+namespace
+{
+struct VReg
+{
+  int live       = 0;
+  bool arm_copy  = false;  // the next copy construction / copy assignment of a Tracked throws
+};
+VReg g_vreg[2];
+
+// instance counted alternative; construction from a negative value throws (the way to the
+// valueless state); copying throws on demand; moving never throws
+template <int Side>
+struct Tracked
+{
+  int val;
+  explicit Tracked(int v) : val(v)
+  {
+    if (v < 0)
+      throw std::runtime_error("Tracked(negative)");
+    ++g_vreg[Side].live;
+  }
+  Tracked(const Tracked &o) : val(o.val)
+  {
+    if (g_vreg[Side].arm_copy)
+    {
+      g_vreg[Side].arm_copy = false;
+      throw std::runtime_error("Tracked copy");
+    }
+    ++g_vreg[Side].live;
+  }
+  Tracked(Tracked &&o) noexcept : val(o.val)
+  {
+    o.val = -7;
+    ++g_vreg[Side].live;
+  }
+  Tracked &operator=(const Tracked &o)
+  {
+    if (g_vreg[Side].arm_copy)
+    {
+      g_vreg[Side].arm_copy = false;
+      throw std::runtime_error("Tracked copy assignment");
+    }
+    val = o.val;
+    return *this;
+  }
+  Tracked &operator=(Tracked &&o) noexcept
+  {
+    if (this != &o)
+    {
+      val   = o.val;
+      o.val = -7;
+    }
+    return *this;
+  }
+  ~Tracked() { --g_vreg[Side].live; }
+  friend bool operator==(const Tracked &a, const Tracked &b) { return a.val == b.val; }
+  friend bool operator!=(const Tracked &a, const Tracked &b) { return a.val != b.val; }
+  friend bool operator<(const Tracked &a, const Tracked &b) { return a.val < b.val; }
+  friend bool operator>(const Tracked &a, const Tracked &b) { return a.val > b.val; }
+  friend bool operator<=(const Tracked &a, const Tracked &b) { return a.val <= b.val; }
+  friend bool operator>=(const Tracked &a, const Tracked &b) { return a.val >= b.val; }
+};
+
+std::string rs(const nostd::monostate &)
+{
+  return "mono";
+}
+std::string rs(const std::monostate &)
+{
+  return "mono";
+}
+std::string rs(const int &v)
+{
+  return "i:" + std::to_string(v);
+}
+std::string rs(const double &v)
+{
+  char b[48];
+  snprintf(b, sizeof b, "d:%a", v);
+  return b;
+}
+std::string rs(const std::string &s)
+{
+  return "s:" + vh::show(s);
+}
+template <int S>
+std::string rs(const Tracked<S> &t)
+{
+  return "T:" + std::to_string(t.val);
+}
+
+struct NApi
+{
+  static constexpr int side = 0;
+  template <class... T>
+  using variant    = nostd::variant<T...>;
+  using monostate  = nostd::monostate;
+  using bad_access = nostd::bad_variant_access;
+  template <size_t I, class V>
+  static decltype(auto) get(V &&v)
+  {
+    return nostd::get<I>(std::forward<V>(v));
+  }
+  template <class T, class V>
+  static decltype(auto) get_t(V &&v)
+  {
+    return nostd::get<T>(std::forward<V>(v));
+  }
+  template <size_t I, class V>
+  static auto get_if(V *v)
+  {
+    return nostd::get_if<I>(v);
+  }
+  template <class T, class V>
+  static auto get_if_t(V *v)
+  {
+    return nostd::get_if<T>(v);
+  }
+  template <class T, class V>
+  static bool holds(const V &v)
+  {
+    return nostd::holds_alternative<T>(v);
+  }
+  template <class F, class... V>
+  static decltype(auto) visit(F &&f, V &&...v)
+  {
+    return nostd::visit(std::forward<F>(f), std::forward<V>(v)...);
+  }
+};
+struct SApi
+{
+  static constexpr int side = 1;
+  template <class... T>
+  using variant    = std::variant<T...>;
+  using monostate  = std::monostate;
+  using bad_access = std::bad_variant_access;
+  template <size_t I, class V>
+  static decltype(auto) get(V &&v)
+  {
+    return std::get<I>(std::forward<V>(v));
+  }
+  template <class T, class V>
+  static decltype(auto) get_t(V &&v)
+  {
+    return std::get<T>(std::forward<V>(v));
+  }
+  template <size_t I, class V>
+  static auto get_if(V *v)
+  {
+    return std::get_if<I>(v);
+  }
+  template <class T, class V>
+  static auto get_if_t(V *v)
+  {
+    return std::get_if<T>(v);
+  }
+  template <class T, class V>
+  static bool holds(const V &v)
+  {
+    return std::holds_alternative<T>(v);
+  }
+  template <class F, class... V>
+  static decltype(auto) visit(F &&f, V &&...v)
+  {
+    return std::visit(std::forward<F>(f), std::forward<V>(v)...);
+  }
+};
+
+static_assert(nostd::variant_size<nostd::variant<int, char, double>>::value == 3, "variant_size");
+static_assert(std::is_same<nostd::variant_alternative_t<1, nostd::variant<int, char, double>>, char>::value,
+              "variant_alternative_t");
+
+// a value to put into a variant: alternative 0 mono, 1 int, 2 string, 3 Tracked, 4 double
+struct Val
+{
+  int alt = 0;
+  int iv  = 0;
+  double dv = 0;
+  std::string sv;
+  std::string show() const
+  {
+    switch (alt)
+    {
+      case 0:
+        return "mono";
+      case 1:
+        return rs(iv);
+      case 2:
+        return rs(sv);
+      case 3:
+        return "T:" + std::to_string(iv);
+      default:
+        return rs(dv);
+    }
+  }
+};
+
+Val gen_val(vh::Reader &rd)
+{
+  Val v;
+  v.alt = static_cast<int>(rd.weighted({2, 5, 5, 6, 3}));
+  switch (v.alt)
+  {
+    case 1:
+      v.iv = rd.range(-3, 3);
+      break;
+    case 2:
+    {
+      static const char *const pool[] = {"", "a", "b", "ab", "a\0b", "this string does not fit the small buffer....", "zz"};
+      static const size_t lens[]      = {0, 1, 1, 2, 3, 45, 2};
+      size_t k                        = rd.below(7);
+      v.sv                            = std::string(pool[k], lens[k]);
+      break;
+    }
+    case 3:
+      v.iv = rd.chance(25) ? -1 : rd.range(0, 4);  // -1: the constructor throws
+      break;
+    case 4:
+    {
+      static const double dpool[] = {0.0, -0.0, 1.5, -2.25, std::numeric_limits<double>::infinity(),
+                                     std::numeric_limits<double>::quiet_NaN(), 1e300};
+      v.dv = dpool[rd.below(7)];
+      break;
+    }
+    default:
+      break;
+  }
+  return v;
+}
+
+enum VKind
+{
+  V_EMPLACE_INDEX,
+  V_EMPLACE_TYPE,
+  V_ASSIGN_VALUE,
+  V_CONSTRUCT_VALUE,
+  V_COPY_ASSIGN,
+  V_MOVE_ASSIGN,
+  V_COPY_CONSTRUCT,
+  V_MOVE_CONSTRUCT,
+  V_SWAP,
+  V_MUTATE,
+  V_GET,
+  V_VISIT2,
+  V_COMPARE,
+  V_DUP_EMPLACE,
+  V_NKINDS
+};
+const char *const kVNames[] = {"emplace_index", "emplace_type",  "assign_value", "construct_value", "copy_assign",
+                               "move_assign",   "copy_construct", "move_construct", "swap",         "mutate",
+                               "get",           "visit2",         "compare",      "dup_emplace"};
+
+struct VOp
+{
+  int kind = 0;
+  int i = 0, j = 0;
+  int flag = 0;
+  int probe = 0;
+  bool arm  = false;
+  Val val;
+};
+
+template <class A>
+struct VWorld
+{
+  static constexpr int S = A::side;
+  using T                = Tracked<S>;
+  using Mono             = typename A::monostate;
+  using V                = typename A::template variant<Mono, int, std::string, T, double>;
+  using B                = typename A::template variant<int, std::string, int>;  // repeated type: index API only
+  V v[3];
+  B w[2];
+
+  template <size_t I>
+  static void probe_get(V &x, std::ostream &o)
+  {
+    try
+    {
+      o << "get<" << I << ">=" << rs(A::template get<I>(x));
+    }
+    catch (const typename A::bad_access &)
+    {
+      o << "get<" << I << ">=bad_access";
+    }
+    const V &cx = x;
+    try
+    {
+      o << " const=" << rs(A::template get<I>(cx));
+    }
+    catch (const typename A::bad_access &)
+    {
+      o << " const=bad_access";
+    }
+    using Alt = std::remove_reference_t<decltype(A::template get<I>(x))>;
+    try
+    {
+      o << " get<T>=" << rs(A::template get_t<Alt>(x));
+    }
+    catch (const typename A::bad_access &)
+    {
+      o << " get<T>=bad_access";
+    }
+    auto *p = A::template get_if<I>(&x);
+    auto *q = A::template get_if_t<Alt>(&cx);
+    o << " get_if=" << (p ? rs(*p) : "null") << "/" << (q ? rs(*q) : "null");
+    o << " get_if(nullptr)=" << (A::template get_if<I>(static_cast<V *>(nullptr)) == nullptr);
+  }
+
+  void put(V &dst, const Val &val, int how)
+  {
+    // how: 0 emplace<I>, 1 emplace<T>, 2 converting assignment, 3 converting construction
+    switch (val.alt)
+    {
+      case 0:
+        if (how == 0)
+          dst.template emplace<0>();
+        else if (how == 1)
+          dst.template emplace<Mono>();
+        else if (how == 2)
+          dst = Mono{};
+        else
+          dst = V(Mono{});
+        break;
+      case 1:
+        if (how == 0)
+          dst.template emplace<1>(val.iv);
+        else if (how == 1)
+          dst.template emplace<int>(val.iv);
+        else if (how == 2)
+        {
+          if (val.iv == 3)
+            dst = static_cast<char>(val.iv);  // char -> int under both selection rules
+          else
+            dst = val.iv;
+        }
+        else
+          dst = V(val.iv);
+        break;
+      case 2:
+        if (how == 0)
+          dst.template emplace<2>(val.sv);
+        else if (how == 1)
+          dst.template emplace<std::string>(val.sv.data(), val.sv.size());
+        else if (how == 2)
+        {
+          if (val.sv.find('\0') == std::string::npos && (val.sv.size() & 1))
+            dst = val.sv.c_str();  // const char* -> std::string, the only candidate
+          else
+            dst = val.sv;
+        }
+        else
+          dst = V(val.sv);
+        break;
+      case 3:
+        if (how == 0)
+          dst.template emplace<3>(val.iv);
+        else if (how == 1)
+          dst.template emplace<T>(val.iv);
+        else if (how == 2)
+          dst = T(val.iv);
+        else
+          dst = V(T(val.iv));
+        break;
+      default:
+        if (how == 0)
+          dst.template emplace<4>(val.dv);
+        else if (how == 1)
+          dst.template emplace<double>(val.dv);
+        else if (how == 2)
+        {
+          if (val.dv == 1.5)
+            dst = 1.5f;  // float -> double under both selection rules
+          else
+            dst = val.dv;
+        }
+        else
+          dst = V(val.dv);
+        break;
+    }
+  }
+
+  void step(const VOp &op, std::ostream &o)
+  {
+    g_vreg[S].arm_copy = op.arm;
+    try
+    {
+      switch (op.kind)
+      {
+        case V_EMPLACE_INDEX:
+          put(v[op.i], op.val, 0);
+          break;
+        case V_EMPLACE_TYPE:
+          put(v[op.i], op.val, 1);
+          break;
+        case V_ASSIGN_VALUE:
+          put(v[op.i], op.val, 2);
+          break;
+        case V_CONSTRUCT_VALUE:
+          put(v[op.i], op.val, 3);
+          break;
+        case V_COPY_ASSIGN:
+        {
+          const V &src = v[op.j];  // may be the destination itself
+          v[op.i]      = src;
+          break;
+        }
+        case V_MOVE_ASSIGN:  // i != j
+          v[op.i] = std::move(v[op.j]);
+          o << "src-index-after-move=" << static_cast<long>(v[op.j].index()) << " ";
+          if (v[op.j].index() == 2)
+            v[op.j].template emplace<2>("moved-from");  // a moved-from string has an unspecified value
+          break;
+        case V_COPY_CONSTRUCT:
+        {
+          V t(v[op.j]);
+          o << "copy-equal=" << (t == v[op.j]) << " ";
+          v[op.i] = std::move(t);
+          break;
+        }
+        case V_MOVE_CONSTRUCT:
+        {
+          V t(std::move(v[op.j]));
+          o << "src-index-after-move=" << static_cast<long>(v[op.j].index()) << " ";
+          if (op.i != op.j && v[op.j].index() == 2)
+            v[op.j].template emplace<2>("moved-from");
+          v[op.i] = std::move(t);
+          break;
+        }
+        case V_SWAP:
+          if (S == 1 && v[op.i].valueless_by_exception() != v[op.j].valueless_by_exception())
+          {
+            // reference side only: libstdc++ 12's variant::swap leaves BOTH operands holding the value
+            // when exactly one is valueless (its recursive call never resets the source), contrary to
+            // [variant.swap] "exchanges the values"; the exchange is spelled out with three moves here
+            V t(std::move(v[op.i]));
+            v[op.i] = std::move(v[op.j]);
+            v[op.j] = std::move(t);
+          }
+          else if (op.flag & 1)
+          {
+            using std::swap;
+            swap(v[op.i], v[op.j]);
+          }
+          else
+            v[op.i].swap(v[op.j]);
+          break;
+        case V_MUTATE:
+          if (!v[op.i].valueless_by_exception())
+          {
+            struct Mut
+            {
+              void operator()(Mono &) const {}
+              void operator()(int &x) const { x += 1; }
+              void operator()(std::string &x) const { x += "+"; }
+              void operator()(T &x) const { x.val += 10; }
+              void operator()(double &x) const { x = -x; }
+            };
+            A::visit(Mut{}, v[op.i]);
+          }
+          break;
+        case V_GET:
+          switch (op.probe)
+          {
+            case 0:
+              probe_get<0>(v[op.i], o);
+              break;
+            case 1:
+              probe_get<1>(v[op.i], o);
+              break;
+            case 2:
+              probe_get<2>(v[op.i], o);
+              break;
+            case 3:
+              probe_get<3>(v[op.i], o);
+              break;
+            default:
+              probe_get<4>(v[op.i], o);
+              break;
+          }
+          o << " ";
+          break;
+        case V_VISIT2:
+          try
+          {
+            o << "visit2=" << A::visit([](const auto &a, const auto &b) { return rs(a) + "&" + rs(b); }, v[op.i], v[op.j])
+              << " ";
+          }
+          catch (const typename A::bad_access &)
+          {
+            o << "visit2=bad_access ";
+          }
+          break;
+        case V_COMPARE:
+        {
+          const V &a = v[op.i], &b = v[op.j];
+          o << "cmp=" << (a == b) << (a != b) << (a < b) << (a > b) << (a <= b) << (a >= b) << " ";
+          break;
+        }
+        case V_DUP_EMPLACE:
+        {
+          B &x = w[op.i & 1];
+          if (op.probe % 3 == 0)
+            x.template emplace<0>(op.val.iv);
+          else if (op.probe % 3 == 1)
+            x.template emplace<1>(op.val.sv);
+          else
+            x.template emplace<2>(op.val.iv);
+          break;
+        }
+      }
+    }
+    catch (const std::runtime_error &e)
+    {
+      o << "threw(" << e.what() << ") ";
+    }
+    g_vreg[S].arm_copy = false;
+  }
+
+  void observe(std::ostream &o) const
+  {
+    for (int i = 0; i < 3; ++i)
+    {
+      const V &x = v[i];
+      o << "v" << i << "=#" << static_cast<long>(x.index()) << (x.valueless_by_exception() ? "!" : "") << ":";
+      try
+      {
+        o << A::visit([](const auto &a) { return rs(a); }, x);
+      }
+      catch (const typename A::bad_access &)
+      {
+        o << "bad_access";
+      }
+      o << "[" << A::template holds<Mono>(x) << A::template holds<int>(x) << A::template holds<std::string>(x)
+        << A::template holds<T>(x) << A::template holds<double>(x) << "] ";
+    }
+    for (int i = 0; i < 2; ++i)
+    {
+      const B &x = w[i];
+      o << "w" << i << "=#" << x.index() << ":";
+      if (x.index() == 0)
+        o << A::template get<0>(x);
+      else if (x.index() == 1)
+        o << vh::show(A::template get<1>(x));
+      else
+        o << A::template get<2>(x);
+      o << "[" << (A::template get_if<0>(&x) != nullptr) << (A::template get_if<1>(&x) != nullptr)
+        << (A::template get_if<2>(&x) != nullptr) << "] ";
+    }
+    o << "w0?w1=" << (w[0] == w[1]) << (w[0] != w[1]) << (w[0] < w[1]) << (w[0] >= w[1]);
+    o << " liveT=" << g_vreg[S].live;
+  }
+};
+}  // namespace
+
+VH_TARGET(var_ops, 3,
+          "a program is non-trivial when it changes the active alternative of a variant that holds a "
+          "non-trivial alternative (string / instance-counted), reaches or uses the valueless state, "
+          "or compares / visits two variants holding the same alternative; distinct = distinct "
+          "operation sequence text")
+{
+  vh::Reader &rd = c.rd;
+  g_vreg[0] = VReg();
+  g_vreg[1] = VReg();
+  {
+    VWorld<NApi> wn;
+    VWorld<SApi> ws;
+    // start from three different alternatives
+    {
+      Val a, b, t;
+      a.alt = 1, a.iv = rd.range(0, 2);
+      b.alt = 2, b.sv = rd.coin() ? "ab" : "this string does not fit the small buffer....";
+      t.alt = 3, t.iv = rd.range(0, 2);
+      wn.put(wn.v[0], a, 0), ws.put(ws.v[0], a, 0);
+      wn.put(wn.v[1], b, 0), ws.put(ws.v[1], b, 0);
+      wn.put(wn.v[2], t, 0), ws.put(ws.v[2], t, 0);
+      c.note("start " + a.show() + " " + b.show() + " " + t.show() + "\n");
+    }
+    unsigned nops = 1 + rd.below(24);
+    for (unsigned step = 0; step < nops && (step == 0 || !rd.exhausted()); ++step)
+    {
+      VOp op;
+      op.kind  = static_cast<int>(rd.weighted({10, 6, 8, 4, 8, 6, 4, 4, 6, 4, 8, 6, 10, 3}));
+      op.i     = static_cast<int>(rd.below(3));
+      op.j     = static_cast<int>(rd.below(3));
+      op.flag  = static_cast<int>(rd.below(4));
+      op.probe = static_cast<int>(rd.below(5));
+      op.val   = gen_val(rd);
+      if ((op.kind == V_EMPLACE_INDEX || op.kind == V_EMPLACE_TYPE) && rd.chance(15))
+      {
+        op.val.alt = 3;  // the throwing construction: the way into the valueless state
+        op.val.iv  = -1;
+      }
+      // a valueless variant, once reached, is usually one of the operands of what follows
+      for (int q = 0; q < 3; ++q)
+        if (ws.v[q].valueless_by_exception() && rd.chance(45))
+        {
+          if (op.kind == V_GET || op.kind == V_MUTATE || rd.coin())
+            op.i = q;
+          else
+            op.j = q;
+          break;
+        }
+      if (op.kind == V_MOVE_ASSIGN && op.i == op.j)
+        op.j = (op.i + 1) % 3;  // self-move of the contained value is unspecified for library types
+      if (op.kind == V_DUP_EMPLACE && op.val.alt != 1 && op.val.alt != 2)
+      {
+        op.val.alt = 1;
+        op.val.iv  = op.flag;
+      }
+      if (op.kind == V_DUP_EMPLACE)
+        op.probe = op.val.alt == 2 ? 1 : (op.flag & 1 ? 0 : 2);
+      if (op.kind == V_GET && rd.chance(50) && !ws.v[op.i].valueless_by_exception())
+        op.probe = static_cast<int>(ws.v[op.i].index());
+      op.arm = (op.kind == V_COPY_ASSIGN || op.kind == V_COPY_CONSTRUCT) && ws.v[op.j].index() == 3 && rd.chance(25);
+      const auto &si = ws.v[op.i], &sj = ws.v[op.j];  // the std side is the reference for the tags
+      bool i_heavy = si.index() == 2 || si.index() == 3;
+      std::ostringstream d;
+      d << kVNames[op.kind] << "(i=" << op.i << ",j=" << op.j << ",f=" << op.flag << ",p=" << op.probe
+        << (op.arm ? ",copy-throws" : "") << "," << op.val.show() << ")";
+      c.note(d.str() + "\n");
+      bool throws = op.val.alt == 3 && op.val.iv < 0;
+      switch (op.kind)
+      {
+        case V_EMPLACE_INDEX:
+        case V_EMPLACE_TYPE:
+        case V_ASSIGN_VALUE:
+        case V_CONSTRUCT_VALUE:
+          if (throws)
+          {
+            c.tag(std::string(kVNames[op.kind]) + "-throws");
+            c.nontrivial = true;
+          }
+          else
+          {
+            bool same = static_cast<size_t>(op.val.alt) == si.index();
+            c.tag(std::string(kVNames[op.kind]) + (si.valueless_by_exception() ? "-into-valueless" : same ? "-same-alt" : "-other-alt"));
+            c.nontrivial = c.nontrivial || (!same && i_heavy) || si.valueless_by_exception();
+          }
+          break;
+        case V_COPY_ASSIGN:
+        case V_MOVE_ASSIGN:
+        case V_COPY_CONSTRUCT:
+        case V_MOVE_CONSTRUCT:
+        case V_SWAP:
+        {
+          std::string t = kVNames[op.kind];
+          if (op.i == op.j)
+            t += "-self";
+          else if (si.valueless_by_exception() || sj.valueless_by_exception())
+            t += si.valueless_by_exception() && sj.valueless_by_exception() ? "-both-valueless" : "-one-valueless";
+          else
+            t += si.index() == sj.index() ? "-same-alt" : "-other-alt";
+          if (op.arm)
+            t += "-copy-throws";
+          c.tag(t);
+          c.nontrivial = c.nontrivial || i_heavy || sj.index() == 2 || sj.index() == 3 || si.valueless_by_exception() ||
+                         sj.valueless_by_exception();
+          break;
+        }
+        case V_GET:
+          c.tag(si.valueless_by_exception() ? "get-valueless" : (static_cast<size_t>(op.probe) == si.index() ? "get-active" : "get-inactive"));
+          c.nontrivial = c.nontrivial || si.valueless_by_exception();
+          break;
+        case V_VISIT2:
+        case V_COMPARE:
+        {
+          std::string t = kVNames[op.kind];
+          if (si.valueless_by_exception() || sj.valueless_by_exception())
+            t += "-valueless";
+          else if (si.index() == sj.index())
+            t += si == sj ? "-same-alt-equal" : "-same-alt-differ";
+          else
+            t += "-other-alt";
+          if ((si.index() == 4 && std::get<4>(si) != std::get<4>(si)) || (sj.index() == 4 && std::get<4>(sj) != std::get<4>(sj)))
+            t += "-nan";
+          c.tag(t);
+          c.nontrivial = c.nontrivial || si.valueless_by_exception() || sj.valueless_by_exception() || si.index() == sj.index();
+          break;
+        }
+        case V_MUTATE:
+          c.tag(si.valueless_by_exception() ? "mutate-valueless-skipped" : "mutate");
+          break;
+        default:
+          c.tag(kVNames[op.kind]);
+          break;
+      }
+      std::ostringstream on, os;
+      wn.step(op, on);
+      ws.step(op, os);
+      wn.observe(on);
+      ws.observe(os);
+      VH_CHECK(c, on.str() == os.str(), "after step " << step << " " << d.str() << "\n  nostd: " << on.str()
+                                                      << "\n  std:   " << os.str());
+      // hashing consistent with equality (nostd side; the hash values themselves are not compared)
+      {
+        using NB = VWorld<NApi>::B;
+        std::hash<NB> H;
+        NB copy(wn.w[0]);
+        VH_CHECK(c, H(copy) == H(wn.w[0]), "a copy of a variant hashes differently");
+        if (wn.w[0] == wn.w[1])
+        {
+          VH_CHECK(c, H(wn.w[0]) == H(wn.w[1]), "equal variants hash differently");
+          c.tag("hash-equal-variants");
+        }
+      }
+      if (ws.v[0].valueless_by_exception() || ws.v[1].valueless_by_exception() || ws.v[2].valueless_by_exception())
+        c.tag("state-has-valueless");
+    }
+  }
+  VH_CHECK(c, g_vreg[0].live == 0, "nostd side: " << g_vreg[0].live << " instance(s) of the counted alternative alive at the end");
+  VH_CHECK(c, g_vreg[1].live == 0, "std side (harness error): " << g_vreg[1].live << " instance(s) alive at the end");
 }
